@@ -549,7 +549,7 @@ func (e *Engine) loopBackEdge(st *State, fr *Frame, li *loopInfo, pred *ssa.Basi
 }
 
 func (e *Engine) invEnv(st *State, fr *Frame) *SpecEnv {
-	se := e.specEnv(st, e.entry, fr)
+	se := e.specEnv(st, e.oldOf(st), fr)
 	se.preferNames = true
 	return se
 }
